@@ -855,6 +855,17 @@ fn probe_mode() {
     }
 }
 
+/// account-address candidate strings, one per stdin line
+fn accparse_mode() {
+    use std::io::BufRead;
+    for line in std::io::stdin().lock().lines() {
+        let m = line.unwrap();
+        let r = match guarded(|| AccountAddress::from_str(&m)) { Err(_) => json!("PANIC"), Ok(Ok(b)) => json!(hex(&b.0)), Ok(Err(_)) => json!(null) };
+        let adr = match guarded(|| Address::from_str(&m)) { Err(_) => json!("PANIC"), Ok(Ok(Address::Account(b))) => json!(hex(&b.0)), Ok(Ok(_)) => json!("contract"), Ok(Err(_)) => json!(null) };
+        println!("{}", json!({"k":"acc_parse","s":m,"r":r,"address":adr}));
+    }
+}
+
 fn main() {
     quiet_panics();
     let a: Vec<String> = std::env::args().collect();
@@ -866,6 +877,7 @@ fn main() {
         "text" => text_mode(seed, n),
         "arith" => arith_mode(seed, n),
         "probe" => probe_mode(),
+        "accparse" => accparse_mode(),
         _ => { eprintln!("usage: c16 bytes|text|arith <seed> <n>"); std::process::exit(2) }
     }
 }
